@@ -378,3 +378,37 @@ Proof.
   rewrite Hst. exact He.
 Qed.
 Print Assumptions C01_outcome_codes_reached.
+
+(* ... and nothing appears: a name under which nothing is stored stays free until a request addresses it (a PUT of it
+   or of a collection above it, a MOVE onto it, a MKCOL / MKCALENDAR on it); the only thing the server creates by
+   itself is the requesting user's home collection /<user>/ (third hypothesis: p is not that name). *)
+Require RV.Proofs.C01Absent.
+Import RV.Proofs.C01Absent.
+
+Theorem C01_name_stays_free : forall cfg pol user s r p,
+  absent s p -> leaves p r = true -> user <> Some (last_name p) \/ parent p <> [] \/ p = [] ->
+  absent (fst (handle cfg pol user s r)) p.
+Proof. exact handle_absent. Qed.
+Print Assumptions C01_name_stays_free.
+
+Theorem C01_history_absent : forall cfg pol user rs s p,
+  absent s p -> forallb (leaves p) rs = true -> user <> Some (last_name p) \/ parent p <> [] \/ p = [] ->
+  absent (fst (run_history cfg pol user s rs)) p.
+Proof. exact history_absent. Qed.
+Print Assumptions C01_history_absent.
+
+(* non-vacuity: /10/20/105 is free in the example store and stays free through requests on its siblings, its calendar
+   and other collections; the home exception is real: the first request of user 12 creates /12/. *)
+Example C01_absent_nonvacuous :
+  let pol := fun _ : path => [82; 87; 114; 119] in
+  let rs := [RPut [10; 20; 101] CTNone (BCal [mkObj 5 CEvent 7]) CNone false;
+             RProppatch [10; 20] (XProps TRNone [(1, Some 2)]);
+             RMove [10; 20; 101] true [10; 20; 102] false;
+             RDelete [10; 20; 100] CNone;
+             RMkcalendar [10; 21] XNone] in
+  absent ReprExample.ex_sig3 [10; 20; 105]
+  /\ forallb (leaves [10; 20; 105]) rs = true
+  /\ map fst (snd (run_history (mkConfig true true) pol (Some 10) ReprExample.ex_sig3 rs)) = [S201; S207; S201; S200; S201]
+  /\ absent ReprExample.ex_sig3 [12]
+  /\ resolve (fst (handle (mkConfig true true) pol (Some 12) ReprExample.ex_sig3 (RGet [10]))) [12] = NColl (mkColl TNone [] []).
+Proof. cbv zeta. repeat split; vm_compute; reflexivity. Qed.
